@@ -495,8 +495,11 @@ func (an *Analysis) handleType(typ types.Type, ctx context) Type {
 // GetByName returns the type [name], which must be in the package scope
 func (an *Analysis) GetByName(name string) Type {
 	scope := an.Pkg.Types.Scope()
-	ty := scope.Lookup(name).Type()
-	return an.Types[ty]
+	obj := scope.Lookup(name)
+	if obj == nil {
+		return nil
+	}
+	return an.Types[obj.Type()]
 }
 
 // Linker is responsible for attributing the correct output file to
